@@ -66,9 +66,20 @@ AddBlackboxAct == \E cs \in BBConns :
      [op |-> "add_blackbox", a |-> [bb |-> FFJ, name |-> "i", conns |-> cs]], removed)
 FillAct == Do(FillBlackboxRes(st, "i", FFIMPL), [op |-> "fill_blackbox", a |-> [name |-> "i", sc |-> FFIMPLJ]], removed)
 SubConns == { <<>>, << <<"w", <<"a">>>> >>, << <<"w", <<"g">>>> >> }
-AddSubAct == \E cs \in SubConns, sp \in BOOLEAN :
-  Do(AddSubcircuitRes(st, ONE, "g", cs, sp),
-     [op |-> "add_subcircuit", a |-> [sc |-> ONEJ, name |-> "g", conns |-> cs, strip |-> sp]], removed)
+\* a child that carries a blackbox instance r (pins r.d, r.q) between its input a and its output w
+BBK  == [nodes |-> {"a", "r.d", "r.q", "w"}, ty |-> ("a" :> "input" @@ "r.d" :> "bb_input" @@ "r.q" :> "bb_output" @@ "w" :> "buf"),
+         out |-> ("a" :> FALSE @@ "r.d" :> FALSE @@ "r.q" :> FALSE @@ "w" :> TRUE),
+         edges |-> {<<"a", "r.d">>, <<"r.q", "w">>}, bbs |-> ("r" :> FF)]
+BBKJ == [name |-> "bbk", n |-> 4, names |-> <<"a", "r.d", "r.q", "w">>, ty |-> <<"input", "bb_input", "bb_output", "buf">>,
+         out |-> <<FALSE, FALSE, FALSE, TRUE>>, fi |-> << <<>>, <<1>>, <<>>, <<3>> >>,
+         bbs |-> << [inst |-> "r", type |-> "ff", ins |-> <<"d">>, outs |-> <<"q">>] >>, acyc |-> TRUE]
+SubConnsK == { <<>>, << <<"a", <<"a">>>> >>, << <<"w", <<"a">>>> >>, << <<"a", <<"g">>>>, <<"w", <<"a">>>> >>, << <<"w", <<"zz">>>> >> }
+AddSubAct == \/ \E cs \in SubConns, sp \in BOOLEAN :
+                Do(AddSubcircuitRes(st, ONE, "g", cs, sp),
+                   [op |-> "add_subcircuit", a |-> [sc |-> ONEJ, name |-> "g", conns |-> cs, strip |-> sp]], removed)
+             \/ \E cs \in SubConnsK :
+                Do(AddSubcircuitRes(st, BBK, "i", cs, TRUE),
+                   [op |-> "add_subcircuit", a |-> [sc |-> BBKJ, name |-> "i", conns |-> cs, strip |-> TRUE]], removed)
 
 Init == st = EmptySt /\ removed = {} /\ last = "" /\ lastExc = ""
 NextReach == \/ AddAct(NamesX, Types, L01(Names), L01(Names))
